@@ -399,6 +399,9 @@ func (s *fsm13) handleReceivedFlight( //nolint:cyclop
 	if received.HasHandshake && received.IsRetransmit && s.currentFlight.IsLastSendFlight() {
 		return s.handlePreviousFlightRetransmit(ctx, conn, received.RecordsToACK, ackResult)
 	}
+	if received.HasHandshake && s.state.IsClient && s.currentFlight.IsLastSendFlight() {
+		return s.handleImplicitFinalACK(ctx, conn, received)
+	}
 
 	nextFlight, err := s.parseReceivedFlight(ctx, conn, s.currentFlight)
 	if err != nil {
@@ -438,6 +441,25 @@ func (s *fsm13) handlePreviousFlightRetransmit(
 	}
 
 	return s.transitionAfterACK(ackResult, true), nil
+}
+
+func (s *fsm13) handleImplicitFinalACK(
+	ctx context.Context,
+	conn Conn,
+	received RecvHandshakeState,
+) (receivedFlightTransition, error) {
+	// The server sends a new handshake message (NewSessionTicket, KeyUpdate)
+	// only after it has processed the client's Finished, so its ACK of the
+	// final flight was lost or is still in flight. Treat the message as that
+	// ACK and hand it to the post-handshake state machine.
+	s.retransmit = false
+	s.flightACK.reset()
+	s.postHandshake.initialize()
+	if err := s.postHandshake.handlePostHandshakeReceive(ctx, conn, received); err != nil {
+		return receivedFlightTransition{}, err
+	}
+
+	return receivedFlightTransition{state: StateFinished}, nil
 }
 
 func (s *fsm13) prepareFlightACKTracking(flights []*dtlsflight.Packet, retransmit bool) {
